@@ -36,6 +36,8 @@ ANCHORS = {
 def gen_cases(tier, seed):
     n = 260 if tier == "quick" else 3000
     cases = [{"id": f"ddp{i}", "seed": [seed, i], "interleavings": 2 if tier == "quick" else 4, "backend": "threaded"} for i in range(n)]
+    # a fixed case that exhibits the listed known finding in every run (the KNOWN-FINDING line must not depend on the seed)
+    cases.append({"id": "kf_zero_dim_bf16", "seed": [0, "kf"], "interleavings": 1, "backend": "threaded", "fixed": "zero_dim_bf16"})
     if tier == "thorough":
         for i in range(12):
             cases.append({"id": f"gloo{i}", "seed": [seed, "gloo", i], "interleavings": 1, "backend": "gloo"})
@@ -54,6 +56,13 @@ def _tame(cfg):
 def make_setup(case):
     from .. import gen as G
 
+    if case.get("fixed") == "zero_dim_bf16":
+        cfg = {"lr": 1.0, "betas": [0.9, 0.99], "beta3": -1.0, "epsilon": 1e-2, "momentum": 0.0, "dampening": 0.0, "weight_decay": 0.0, "max_preconditioner_dim": 1024,
+               "precondition_frequency": 1, "start_preconditioning_step": 1, "inv_root_override": 0, "use_nesterov": False, "use_bias_correction": True,
+               "use_decoupled_weight_decay": True, "grafting": {"type": "adam", "epsilon": 1e-3, "beta2": 0.97}, "use_merge_dims": False, "preconditioner_dtype": "float32",
+               "param_dtype": "bfloat16", "precond": {"kind": "shampoo", "ignored_dims": [], "num_tolerated": 3, "solver": {"type": "eigen", "enhance_stability": False, "exponent_multiplier": 1.0}}}
+        return {"groups": None, "W": 2, "G": 2, "comm": "BF16", "communicate_params": False, "cfg": cfg, "shapes": [[], [3], [2, 2], []], "T": 12, "presence_kind": "all",
+                "presence": [[True] * 4 for _ in range(12)], "grad_scale": 1.0, "exact": True, "grad_kind": "dense"}
     rnd = rng_for(*case["seed"], "c06")
     W = rnd.choice([1, 2, 2, 3, 4, 4, 5, 6, 8])
     Gs = rnd.choice(divisors(W))
@@ -73,9 +82,20 @@ def make_setup(case):
         shapes = [[3]] * Gs
     T = rnd.randint(5, 12)
     pk, pres = G.rand_presence(rnd, len(shapes), T, kind=rnd.choice(["all", "never_one", "toggle", "random", "random", "bursts", "all_absent_steps"]))
+    groups = None
+    if len(shapes) >= 2 and rnd.random() < 0.25:
+        # several param groups (each with its own distributor, buffers and step counter); judged with exact communication only
+        cut = rnd.randint(1, len(shapes) - 1)
+        parts = [list(range(0, cut)), list(range(cut, len(shapes)))]
+        if all(sum(G.n_blocks(shapes[i], cfg["max_preconditioner_dim"], cfg["use_merge_dims"]) for i in part) >= Gs for part in parts):
+            groups = [{"params": parts[0], "overrides": {"lr": 0.02}}, {"params": parts[1], "overrides": {"weight_decay": 0.0, "momentum": 0.45 if cfg["momentum"] > 0 else 0.0}}]
+            comm = rnd.choice(["DEFAULT", "FP32"])
+            if pdt == "float64":
+                pdt = "float32"
+                cfg["param_dtype"], cfg["preconditioner_dtype"] = "float32", "float32"
     # exact communication: the communication dtype represents every value of the parameter dtype
     exact = (COMM[comm] == "float32" and pdt in ("float32", "bfloat16")) or (COMM[comm] == "bfloat16" and pdt == "bfloat16")
-    return {"W": W, "G": Gs, "comm": comm, "communicate_params": cp, "cfg": cfg, "shapes": shapes, "T": T, "presence_kind": pk, "presence": pres, "grad_scale": gs, "exact": exact, "grad_kind": rnd.choice(["dense", "dense", "sparse"])}
+    return {"groups": groups, "W": W, "G": Gs, "comm": comm, "communicate_params": cp, "cfg": cfg, "shapes": shapes, "T": T, "presence_kind": pk, "presence": pres, "grad_scale": gs, "exact": exact, "grad_kind": rnd.choice(["dense", "dense", "sparse"])}
 
 
 def _grads(torch, G, S, seed, t):
@@ -106,11 +126,11 @@ def rank_program(ds, torch, S, seed, rank, world, with_twin):
     dt = getattr(torch, cfg["param_dtype"])
     init = G.make_params(torch, S["shapes"], dt, tgen(*seed, "init"), scale=S["grad_scale"])
     params = [torch.nn.Parameter(p.detach().clone()) for p in init]
-    opt = G.build_optimizer(ds, torch, cfg, params, distributed_config=ddp_config(ds, S["comm"], S["G"], S["communicate_params"]))
+    opt = G.build_optimizer(ds, torch, cfg, params, S.get("groups"), distributed_config=ddp_config(ds, S["comm"], S["G"], S["communicate_params"]))
     twin_p = twin = None
     if with_twin:
         twin_p = [torch.nn.Parameter(p.detach().clone()) for p in init]
-        twin = G.build_optimizer(ds, torch, cfg, twin_p)
+        twin = G.build_optimizer(ds, torch, cfg, twin_p, S.get("groups"))
     hist = {"params": [], "old": [], "u_ddp": [], "u_twin": [], "twin": [], "owned": None, "state_keys": None}
     # which blocks does this rank own / hold state for (public surface): keys of optimizer.state with tensors of non-zero local size
     for t in range(S["T"]):
@@ -152,8 +172,8 @@ def rank_program(ds, torch, S, seed, rank, world, with_twin):
 
 
 def _is_zero_dim_narrow(S, j):
-    """0-D parameter of a 16-bit dtype communicated in that same 16-bit dtype"""
-    return len(S["shapes"][j]) == 0 and S["cfg"]["param_dtype"] in ("bfloat16", "float16") and COMM[S["comm"]] == S["cfg"]["param_dtype"]
+    """0-D parameter (kept 0-D: merging off) of a 16-bit dtype communicated in that same 16-bit dtype"""
+    return len(S["shapes"][j]) == 0 and not S["cfg"]["use_merge_dims"] and S["cfg"]["param_dtype"] in ("bfloat16", "float16") and COMM[S["comm"]] == S["cfg"]["param_dtype"]
 
 
 def judge(torch, S, results, desc_full, counters):
@@ -173,11 +193,13 @@ def judge(torch, S, results, desc_full, counters):
                     raise Violation(f"step {t + 1}: parameter {j} differs between rank 0 and rank {r} (replicas must be bit-identical)", step=t + 1, param=j, rank=r, kind="replica_mismatch", **desc)
         counters["replica_comparisons"] += (W - 1) * len(r0["params"][t])
         # owner's update == the serial optimizer's update for the same state; exactly one owner per group
+        # (block ids are per param group: with several groups only the parameter-level comparisons below are made)
+        multi = bool(S.get("groups"))
         tw = {}
         for rec in r0["u_twin"][t]:
             tw.update(rec)
         owners = {}
-        for r in range(W):
+        for r in range(W if not multi else 0):
             for rec in results[r]["u_ddp"][t]:
                 if "__error__" in rec:
                     raise Inconclusive(f"update capture failed: {rec['__error__']}")
@@ -191,7 +213,7 @@ def judge(torch, S, results, desc_full, counters):
                         raise Violation(f"step {t + 1}: the update of block {bid} computed by its owner (rank {r}) differs from the serial optimizer's update for the same state", step=t + 1, rank=r, kind="owner_update", max_abs_diff=float((u.double() - tw[bid].double()).abs().max()), **desc)
                     owners.setdefault(bid, set()).add(r % S["G"])
                     counters["owner_updates_compared"] += 1
-        for bid in tw:
+        for bid in (tw if not multi else ()):
             if len(owners.get(bid, ())) != 1:
                 raise Violation(f"step {t + 1}: block {bid} was updated by {len(owners.get(bid, ()))} group ranks (expected exactly one owner per group)", step=t + 1, kind="ownership", **desc)
         if S["exact"]:
@@ -300,7 +322,8 @@ def run_case(case):
         v.partial = {"counters": counters}
         raise v
     nontrivial = S["W"] >= 2 and S["G"] >= 2 and full >= 1
-    sig = [S["W"], S["G"], S["comm"], S["communicate_params"], S["cfg"]["param_dtype"], S["cfg"]["precond"]["kind"], (S["cfg"]["grafting"] or {}).get("type", "none"), S["cfg"]["momentum"] > 0, S["presence_kind"], counters["steps_with_starved_rank"] > 0]
+    counters["multi_group_cases"] = int(bool(S.get("groups")))
+    sig = [bool(S.get("groups")), S["W"], S["G"], S["comm"], S["communicate_params"], S["cfg"]["param_dtype"], S["cfg"]["precond"]["kind"], (S["cfg"]["grafting"] or {}).get("type", "none"), S["cfg"]["momentum"] > 0, S["presence_kind"], counters["steps_with_starved_rank"] > 0]
     return {"counters": counters, "sigs": [sig] if nontrivial else [], "sample": {k: desc[k] for k in ("W", "G", "comm", "communicate_params", "shapes", "presence_kind", "T")}}
 
 
